@@ -213,18 +213,6 @@ Definition vname (pn : list token * node) : str := spell (fst pn).
 Definition names_sorted (l : list (list token * node)) : Prop :=
   StronglySorted (fun a b => str_ltb a b = true) (map vname l).
 
-Inductive WFn : nat -> node -> Prop :=
-| WFn_intro k segs vars meths mall :
-    (forall key c, In (key, c) segs -> WFn k c) ->
-    (forall pat c, In (pat, c) vars -> forallb pat_tok_ok pat = true /\ WFn (S k) c) ->
-    names_sorted vars ->
-    (forall v m, In (v, m) meths -> length (m_vars m) = k) ->
-    (forall m, mall = Some m -> length (m_vars m) = k) ->
-    WFn k (Node segs vars meths mall).
-
-Lemma WFn_empty k : WFn k empty_node.
-Proof. constructor; cbn; try contradiction; try constructor; try discriminate. Qed.
-
 Lemma in_set_assoc {A} key (c : A) k v l : In (key, c) (set_assoc k v l) -> (key = k /\ c = v) \/ In (key, c) l.
 Proof.
   induction l as [|[k' v'] l IH]; cbn.
@@ -282,7 +270,23 @@ Proof.
     + now apply IH.
 Qed.
 
-Definition edge_ok (e : edge) : Prop := match e with ELit _ => True | EVar pat => forallb pat_tok_ok pat = true end.
+Section WF.
+(* P: what the patterns of variable edges are known to be *)
+Variable P : list token -> Prop.
+
+Inductive WFn : nat -> node -> Prop :=
+| WFn_intro k segs vars meths mall :
+    (forall key c, In (key, c) segs -> WFn k c) ->
+    (forall pat c, In (pat, c) vars -> P pat /\ WFn (S k) c) ->
+    names_sorted vars ->
+    (forall v m, In (v, m) meths -> length (m_vars m) = k) ->
+    (forall m, mall = Some m -> length (m_vars m) = k) ->
+    WFn k (Node segs vars meths mall).
+
+Lemma WFn_empty k : WFn k empty_node.
+Proof. constructor; cbn; try contradiction; try constructor; try discriminate. Qed.
+
+Definition edge_ok (e : edge) : Prop := match e with ELit _ => True | EVar pat => P pat end.
 
 Lemma upd_WFn es0 : forall f nd nd' k,
   WFn k nd -> Forall edge_ok es0 ->
@@ -315,30 +319,36 @@ Proof.
     + now apply set_var_names.
 Qed.
 
-(* the invariant search relies on follows from the structural one; and on a structurally well-formed
-   trie the In-based reachability of search is the name-based walk of upd *)
-Lemma Reach_walk nd es nd' : Reach nd es nd' -> forall k, WFn k nd -> walk_to es nd = Some nd' /\ WFn (k + nvars es) nd'.
+(* on a structurally well-formed trie the In-based reachability of search is the name-based walk of
+   upd, and the patterns met on the way are known patterns *)
+Lemma Reach_walk nd es nd' : Reach nd es nd' -> forall k, WFn k nd ->
+  walk_to es nd = Some nd' /\ WFn (k + nvars es) nd' /\ Forall edge_ok es.
 Proof.
   induction 1 as [nd|nd key c es nd' Ha HR IH|nd pat c es nd' Hin HR IH]; intros k Hw.
-  - cbn. split; auto. now rewrite Nat.add_0_r.
+  - cbn. split; auto. split; [now rewrite Nat.add_0_r|constructor].
   - inversion Hw as [k0 segs vars meths mall W1 W2 W3 W4 W5]; subst. cbn [n_segs] in Ha. cbn [walk_to n_segs nvars]. rewrite Ha.
-    apply IH. apply (W1 key c). now apply assoc_in.
+    destruct (IH k (W1 key c (assoc_in _ _ _ Ha))) as (A & B & C). split; auto. split; auto. constructor; [exact I|exact C].
   - inversion Hw as [k0 segs vars meths mall W1 W2 W3 W4 W5]; subst. cbn [n_vars] in Hin. cbn [walk_to n_vars nvars].
-    rewrite (sorted_find _ _ _ W3 Hin). destruct (W2 pat c Hin) as [_ Wc].
-    destruct (IH (S k) Wc) as [A B]. split; auto. replace (k + S (nvars es))%nat with (S k + nvars es)%nat by lia. exact B.
+    rewrite (sorted_find _ _ _ W3 Hin). destruct (W2 pat c Hin) as [Pp Wc].
+    destruct (IH (S k) Wc) as (A & B & C). split; auto. split.
+    + replace (k + S (nvars es))%nat with (S k + nvars es)%nat by lia. exact B.
+    + constructor; [exact Pp|exact C].
 Qed.
+
+Hypothesis P_ok : forall pat, P pat -> forallb pat_tok_ok pat = true.
 
 Lemma WFn_TrieInv k nd : WFn k nd -> TrieInv nd k.
 Proof.
   intros Hw. split.
-  - intros es nd' verb m HR HB. destruct (Reach_walk _ _ _ HR k Hw) as [_ W].
+  - intros es nd' verb m HR HB. destruct (Reach_walk _ _ _ HR k Hw) as (_ & W & _).
     inversion W as [k0 segs vars meths mall W1 W2 W3 W4 W5]; subst. unfold bound_at in HB. cbn [n_meths n_mall] in HB.
     destruct (assoc verb meths) as [m0|] eqn:Ea.
     + inversion HB; subst. apply (W4 verb m). now apply assoc_in.
     + now apply W5.
-  - intros es nd' pat c HR Hin. destruct (Reach_walk _ _ _ HR k Hw) as [_ W].
-    inversion W as [k0 segs vars meths mall W1 W2 W3 W4 W5]; subst. cbn [n_vars] in Hin. now destruct (W2 pat c Hin).
+  - intros es nd' pat c HR Hin. destruct (Reach_walk _ _ _ HR k Hw) as (_ & W & _).
+    inversion W as [k0 segs vars meths mall W1 W2 W3 W4 W5]; subst. cbn [n_vars] in Hin. apply P_ok. now destruct (W2 pat c Hin).
 Qed.
+End WF.
 
 (* ---- the token walk of addRule on lexed templates ---- *)
 Section Compile.
@@ -378,23 +388,29 @@ Proof.
     cbn [app field_keys]. change (is TDot tDot) with true. cbn [tval]. rewrite E. now rewrite <- app_assoc.
 Qed.
 
+(* the pattern of a variable edge is a derivation of the segment grammar *)
+Definition PatG (pat : list token) : Prop := exists b, PSegs pat b.
+Definition edge_gram : edge -> Prop := edge_ok PatG.
+Lemma PatG_ok pat : PatG pat -> forallb pat_tok_ok pat = true.
+Proof. intros [b H]. now destruct (PSegs_toks_ok _ _ H). Qed.
+
 Definition seg_step (f : nat) (mid : str) (ts cont : list token) (e : edge) (vf : list (list str)) : Prop :=
   compile (S f) mid (tSlash :: ts ++ cont) = Err EInvalid \/
   compile (S f) mid (tSlash :: ts ++ cont) = (do r <- compile f mid cont; Ok (e :: fst r, vf ++ snd r)).
 
 Lemma compile_seg ts b : Seg ts b -> forall f mid cont,
   match cont with t :: _ :: _ => is TDot t = false | _ => True end ->
-  exists e vf, edge_ok e /\ length vf = nvars [e] /\ seg_step f mid ts cont e vf.
+  exists e vf, edge_gram e /\ length vf = nvars [e] /\ seg_step f mid ts cont e vf.
 Proof.
   intros [ts' b' G|fp Hfp|fp ps b' Hfp Hps] f mid cont Hc.
   - destruct G as [v Hv| |].
     + exists (ELit ([47] ++ v)), []. repeat split. right. reflexivity.
-    + exists (EVar [tStar]), [[]]. repeat split. right. reflexivity.
-    + exists (EVar [tStarStar]), [[]]. repeat split. right. reflexivity.
+    + exists (EVar [tStar]), [[]]. split; [exists false; apply Ss_one; constructor|]. split; [reflexivity|]. right. reflexivity.
+    + exists (EVar [tStarStar]), [[]]. split; [exists true; apply Ss_one; constructor|]. split; [reflexivity|]. right. reflexivity.
   - destruct (tail_of_FieldPath _ _ _ Hfp) as (v & tail & -> & Hv & Ht).
     assert (Hr : match [tClose] ++ cont with t :: _ :: _ => is TDot t = false | _ => True end) by (destruct cont; cbn; auto).
     destruct (field_keys_tail tail Ht [v] ([tClose] ++ cont) Hr) as [names E].
-    exists (EVar [Tok TStar [42]]), [[v] ++ names]. split; [reflexivity|]. split; [reflexivity|].
+    exists (EVar [Tok TStar [42]]), [[v] ++ names]. split; [exists false; apply Ss_one; constructor|]. split; [reflexivity|].
     unfold seg_step. cbn [compile app ttyp tSlash tOpen tval]. rewrite <- app_assoc. rewrite E.
     cbn [app ttyp tClose]. destruct (resolves mid (v :: names)); [right; reflexivity|left; reflexivity].
   - destruct (tail_of_FieldPath _ _ _ Hfp) as (v & tail & -> & Hv & Ht).
@@ -402,7 +418,7 @@ Proof.
     assert (Hr : match (tEq :: ps ++ [tClose]) ++ cont with t :: _ :: _ => is TDot t = false | _ => True end).
     { cbn. destruct (ps ++ [tClose]) eqn:E; cbn; auto. destruct cont; auto. }
     destruct (field_keys_tail tail Ht [v] ((tEq :: ps ++ [tClose]) ++ cont) Hr) as [names E].
-    exists (EVar ps), [[v] ++ names]. split; [exact P1|]. split; [reflexivity|].
+    exists (EVar ps), [[v] ++ names]. split; [exists b'; exact Hps|]. split; [reflexivity|].
     unfold seg_step. cbn [compile app ttyp tSlash tOpen tval].
     replace ((tail ++ tEq :: ps ++ [tClose]) ++ cont) with (tail ++ (tEq :: ps ++ [tClose]) ++ cont) by (now rewrite <- app_assoc).
     rewrite E. cbn [app ttyp tEq]. rewrite <- app_assoc. cbn [app]. rewrite (until_varend_app ps cont P2).
@@ -411,7 +427,7 @@ Qed.
 
 Definition good_result (r : outcome (list edge * list (list str))) : Prop :=
   match r with
-  | Ok (es, vfs) => length vfs = nvars es /\ Forall edge_ok es
+  | Ok (es, vfs) => length vfs = nvars es /\ Forall edge_gram es
   | Err _ => True
   | _ => False
   end.
@@ -557,6 +573,313 @@ Proof.
     all: try (rewrite Ha, Hc; eauto; fail).
     all: try (apply str_eqb_neq in Ev; contradiction).
     all: congruence.
+Qed.
+
+
+Lemma leaf_WFn (P : list token -> Prop) mid b vfs k nd nd' :
+  length vfs = k -> WFn P k nd -> leaf mid b vfs nd = Ok nd' -> WFn P k nd'.
+Proof.
+  intros Hl Hw H. destruct (leaf_keeps mid b vfs nd nd' H) as [Hs Hv].
+  destruct (leaf_spec mid b vfs nd nd' H) as (S1 & _ & _).
+  inversion Hw as [k0 segs vars meths mall W1 W2 W3 W4 W5]; subst.
+  destruct nd' as [segs' vars' meths' mall']. cbn in Hs, Hv. subst segs' vars'.
+  constructor; auto.
+  - intros v m Hin.
+    assert (Hnd : exists m', assoc v meths' = Some m' /\ length (m_vars m') = length vfs -> True) by (exists m; auto).
+    clear Hnd.
+    (* every entry of meths' is either an old entry or the new binding *)
+    unfold Trie.leaf in H. cbn [n_mall n_meths n_segs n_vars] in H.
+    destruct (match mall with Some y => conflict mid y | None => false end); [discriminate|].
+    destruct (str_eqb (b_verb b) star_verb).
+    + destruct (existsb _ meths); [discriminate|]. destruct mall.
+      * inversion H; subst. eauto.
+      * destruct (_ && _); [|discriminate]. cbn in H. inversion H; subst. eauto.
+    + destruct (assoc (b_verb b) meths).
+      * destruct (conflict mid m0); [discriminate|]. inversion H; subst. eauto.
+      * destruct (_ && _); [|discriminate]. cbn in H. inversion H; subst.
+        apply in_app_or in Hin. destruct Hin as [Hin|[E|[]]]; [eauto|]. inversion E; subst. reflexivity.
+  - intros m Hm. destruct (S1 star_verb m) as [[[_ Hs]|Ha]|[_ ->]].
+    + left. split; [reflexivity|exact Hm].
+    + cbn in Hs. eauto.
+    + (* stored under "*" in meths: impossible to say here, but then it is an old entry *)
+      cbn in Ha. apply assoc_in in Ha. eauto.
+    + reflexivity.
+Qed.
+
+(* ---- one binding ---- *)
+Definition compiled (mid : str) (b : brule) (es : list edge) (vfs : list (list str)) : Prop :=
+  exists toks, lex_template (b_tmpl b) = Ok toks /\ compile (S (length toks)) mid toks = Ok (es, vfs).
+
+Lemma add_binding_inv mid root b root' :
+  add_binding mid root b = Ok root' ->
+  exists es vfs leaf', compiled mid b es vfs /\ upd es (leaf mid b vfs) root = Ok root' /\
+    leaf mid b vfs (leaf_of root es) = Ok leaf' /\ walk_to es root' = Some leaf' /\
+    length vfs = nvars es /\ Forall (edge_gram isLetter isNumber) es.
+Proof.
+  unfold Trie.add_binding. intros H.
+  destruct (lex_template (b_tmpl b)) as [toks| | |] eqn:El; try discriminate. cbn [bind] in H.
+  destruct (compile (S (length toks)) mid toks) as [[es vfs]| | |] eqn:Ec; try discriminate. cbn [bind fst snd] in H.
+  destruct (upd_leaf _ _ _ _ H) as (leaf' & Hf & Hw).
+  pose proof (compile_tmpl isLetter isNumber resolves toks mid (proj1 (lex_template_sound _ _ _ _ El))) as Hg.
+  rewrite Ec in Hg. destruct Hg as [A B].
+  exists es, vfs, leaf'. repeat split; auto. exists toks. auto.
+Qed.
+
+(* registration of one binding never panics and never runs out of fuel, whatever the template text *)
+Lemma upd_benign es : forall f nd, (forall x, benign (f x)) -> benign (upd es f nd).
+Proof.
+  induction es as [|[k|pat] es IH]; intros f nd Hf; cbn; auto.
+  - specialize (IH f (match assoc k (n_segs nd) with Some c => c | None => empty_node end) Hf).
+    destruct (upd es f _); cbn in *; auto.
+  - specialize (IH f (match find_var (spell pat) (n_vars nd) with Some c => c | None => empty_node end) Hf).
+    destruct (upd es f _); cbn in *; auto.
+Qed.
+
+Theorem add_binding_benign mid root b : benign (add_binding mid root b).
+Proof.
+  unfold Trie.add_binding.
+  pose proof (lex_template_benign isLetter isNumber (b_tmpl b)) as Hl.
+  destruct (lex_template (b_tmpl b)) as [toks| | |] eqn:El; cbn in Hl; try contradiction; cbn [bind benign]; auto.
+  pose proof (compile_tmpl isLetter isNumber resolves toks mid (proj1 (lex_template_sound _ _ _ _ El))) as Hg.
+  destruct (compile (S (length toks)) mid toks) as [[es vfs]| | |]; cbn in Hg |- *; auto.
+  apply upd_benign. intros x. apply leaf_benign.
+Qed.
+
+
+(* ---- the history of registrations: what every reachable trie satisfies ---- *)
+Notation PatG := (PatG isLetter isNumber).
+Notation edge_gram := (edge_gram isLetter isNumber).
+
+Definition regs := list (str * brule).
+
+Record Inv (L : regs) (root : node) : Prop := {
+  inv_wf : WFn PatG 0 root;
+  inv_nostar : forall es i, info_at root es = Some i -> assoc star_verb (fst i) = None;
+  (* provenance: every stored binding was registered, for the method that owns it, under the verb it
+     is stored under, and sits where its template leads (same edges up to the spelling of patterns) *)
+  inv_prov : forall es i key m, info_at root es = Some i -> stored i key m ->
+      exists mid b es', In (mid, b) L /\ m_id m = mid /\ key = b_verb b /\ m_body m = b_body b /\
+                        compiled mid b es' (m_vars m) /\ keys es = keys es';
+  (* presence: every registered binding is still served, by its own method *)
+  inv_present : forall mid b, In (mid, b) L ->
+      exists es vfs i m, compiled mid b es vfs /\ info_at root es = Some i /\ stored i (b_verb b) m /\ m_id m = mid
+}.
+
+Lemma stored_empty key m : ~ stored ([], None) key m.
+Proof. intros [[_ H]|H]; cbn in H; discriminate. Qed.
+
+Lemma Inv_empty : Inv [] empty_node.
+Proof.
+  constructor.
+  - apply WFn_empty.
+  - intros es i H. apply info_at_empty in H. subst. reflexivity.
+  - intros es i key m H Hs. apply info_at_empty in H. subst. now apply stored_empty in Hs.
+  - intros mid b [].
+Qed.
+
+Lemma leaf_nostar mid b vfs nd nd' :
+  leaf mid b vfs nd = Ok nd' -> assoc star_verb (n_meths nd) = None -> assoc star_verb (n_meths nd') = None.
+Proof.
+  intros H Hn. unfold Trie.leaf in H.
+  destruct (match n_mall nd with Some y => conflict mid y | None => false end); [discriminate|].
+  destruct (str_eqb (b_verb b) star_verb) eqn:Ev.
+  - destruct (existsb _ _); [discriminate|]. destruct (n_mall nd).
+    + inversion H; subst; auto.
+    + destruct (_ && _); [|discriminate]. cbn in H. inversion H; subst; auto.
+  - destruct (assoc (b_verb b) (n_meths nd)).
+    + destruct (conflict mid m); [discriminate|]. inversion H; subst; auto.
+    + destruct (_ && _); [|discriminate]. cbn in H. inversion H; subst. cbn [n_meths].
+      rewrite assoc_snoc, Hn, Ev. reflexivity.
+Qed.
+
+Lemma info_leaf_of root es i : info_at root es = Some i -> i = info (leaf_of root es).
+Proof. unfold info_at, leaf_of. destruct (walk_to es root); intros H; inversion H; reflexivity. Qed.
+Lemma info_leaf_none root es : info_at root es = None -> leaf_of root es = empty_node.
+Proof. unfold info_at, leaf_of. destruct (walk_to es root); [discriminate|reflexivity]. Qed.
+Lemma info_at_keys root es1 es2 : keys es1 = keys es2 -> info_at root es1 = info_at root es2.
+Proof. intros H. unfold info_at. now rewrite (walk_to_keys es1 es2 root H). Qed.
+
+Theorem Inv_step L root mid b root' :
+  Inv L root -> add_binding mid root b = Ok root' -> Inv ((mid, b) :: L) root'.
+Proof.
+  intros [Iw In_ Ip Ipr] H.
+  destruct (add_binding_inv _ _ _ _ H) as (es0 & vfs & leaf' & Hc & Hu & Hl & Hw & Hlen & Hg).
+  pose proof (leaf_keeps mid b vfs) as Hk.
+  destruct (leaf_spec _ _ _ _ _ Hl) as (S1 & S2 & S3).
+  assert (Hold : forall key m, stored (info (leaf_of root es0)) key m ->
+                  exists i0, info_at root es0 = Some i0 /\ stored i0 key m).
+  { intros key m Hs. destruct (info_at root es0) as [i0|] eqn:Ei.
+    - exists i0. split; auto. now rewrite (info_leaf_of _ _ _ Ei).
+    - rewrite (info_leaf_none _ _ Ei) in Hs. now apply stored_empty in Hs. }
+  constructor.
+  - eapply upd_WFn; [exact Iw|exact Hg| |exact Hu].
+    intros leaf leaf2 HW HF. eapply leaf_WFn; [|exact HW|exact HF]. cbn. exact Hlen.
+  - intros es i Hi. destruct (upd_info_inv es0 _ _ _ leaf' es i Hk Hu Hl Hi) as [[E1 E2]|[E|E]].
+    + subst i. cbn [info fst]. eapply leaf_nostar; [exact Hl|].
+      destruct (info_at root es0) as [i0|] eqn:Ei.
+      * pose proof (In_ es0 _ Ei) as X. rewrite (info_leaf_of _ _ _ Ei) in X. exact X.
+      * rewrite (info_leaf_none _ _ Ei). reflexivity.
+    + eauto.
+    + subst i. reflexivity.
+  - intros es i key m Hi Hs. destruct (upd_info_inv es0 _ _ _ leaf' es i Hk Hu Hl Hi) as [[E1 E2]|[E|E]].
+    + subst i. destruct (S1 key m Hs) as [Hs0|[-> ->]].
+      * destruct (Hold key m Hs0) as (i0 & Ei0 & Hs1).
+        destruct (Ip es0 i0 key m Ei0 Hs1) as (mid' & b' & es' & A & B & C & D & E & F).
+        exists mid', b', es'. split; [now right|]. split; [exact B|]. split; [exact C|]. split; [exact D|]. split; [exact E|congruence].
+      * exists mid, b, es0. split; [now left|]. split; [reflexivity|]. split; [reflexivity|]. split; [reflexivity|]. split; [exact Hc|exact E1].
+    + destruct (Ip es i key m E Hs) as (mid' & b' & es' & A & B & C & D & E' & F).
+      exists mid', b', es'. split; [now right|]. split; [exact B|]. split; [exact C|]. split; [exact D|]. split; [exact E'|exact F].
+    + subst i. now apply stored_empty in Hs.
+  - intros mid' b' [E|Hin].
+    + inversion E; subst mid' b'. destruct S3 as (m & Hs & Hm).
+      exists es0, vfs, (info leaf'), m. split; [exact Hc|]. split; [unfold info_at; now rewrite Hw|]. split; [exact Hs|exact Hm].
+    + destruct (Ipr mid' b' Hin) as (es1 & vfs1 & i1 & m1 & C1 & Ei1 & Hs1 & Hm1).
+      destruct (list_eq_dec ekey_dec (keys es1) (keys es0)) as [Ek|Ek].
+      * exists es1, vfs1, (info leaf'), m1. split; [exact C1|]. split; [|split; [|exact Hm1]].
+        -- rewrite (info_at_keys root' es1 es0 Ek). unfold info_at. now rewrite Hw.
+        -- apply S2. rewrite (info_at_keys root es1 es0 Ek) in Ei1. now rewrite <- (info_leaf_of _ _ _ Ei1).
+      * exists es1, vfs1, i1, m1. split; [exact C1|]. split; [eapply upd_info_keep; eauto|]. split; [exact Hs1|exact Hm1].
+Qed.
+
+
+(* ---- whole rules, methods, services ---- *)
+Notation add_additional := (add_additional resolves body_ok resp_ok isLetter isNumber).
+Notation add_rule := (add_rule resolves body_ok resp_ok isLetter isNumber).
+Notation add_rules := (add_rules resolves body_ok resp_ok isLetter isNumber).
+Notation append_handler := (append_handler resolves body_ok resp_ok isLetter isNumber).
+Notation register_methods := (register_methods resolves body_ok resp_ok isLetter isNumber).
+Notation register_service := (register_service resolves body_ok resp_ok isLetter isNumber).
+
+Definition rule_bindings (r : hrule) : list brule := h_main r :: h_adds r.
+Definition decl_bindings (d : mdecl) : list brule :=
+  rule_bindings (implicit_rule (d_id d)) ++ flat_map rule_bindings (d_config d) ++
+  match d_annot d with Some r => rule_bindings r | None => [] end.
+
+(* L' was added on top of L, all of it for method mid, drawn from bs *)
+Definition Added (L L2 : regs) (mid : str) (bs : list brule) : Prop :=
+  exists L', L2 = L' ++ L /\ forall x, In x L' -> fst x = mid /\ In (snd x) bs.
+
+Lemma Added_refl L mid bs : Added L L mid bs.
+Proof. exists []. split; [reflexivity|]. intros x []. Qed.
+Lemma Added_trans L L2 L3 mid bs1 bs2 bs :
+  Added L L2 mid bs1 -> Added L2 L3 mid bs2 -> (forall b, In b bs1 \/ In b bs2 -> In b bs) -> Added L L3 mid bs.
+Proof.
+  intros (A & -> & HA) (B & -> & HB) Hsub. exists (B ++ A). split; [now rewrite app_assoc|].
+  intros x Hx. apply in_app_or in Hx. destruct Hx as [Hx|Hx].
+  - destruct (HB x Hx). split; auto.
+  - destruct (HA x Hx). split; auto.
+Qed.
+
+Lemma add_additional_Inv mid : forall adds L root root',
+  Inv L root -> add_additional mid root adds = Ok root' -> exists L2, Inv L2 root' /\ Added L L2 mid adds.
+Proof.
+  induction adds as [|a adds IH]; intros L root root' HI H; cbn in H.
+  - inversion H; subst. exists L. split; auto. apply Added_refl.
+  - destruct (b_nested a); [discriminate|].
+    destruct (add_binding mid root a) as [r1| | |] eqn:E1; try discriminate. cbn [bind] in H.
+    destruct (IH _ _ _ (Inv_step _ _ _ _ _ HI E1) H) as (L2 & HI2 & HA).
+    exists L2. split; auto.
+    eapply Added_trans with (bs1 := [a]) (bs2 := adds); [| exact HA |].
+    + exists [(mid, a)]. split; [reflexivity|]. intros x [<-|[]]. cbn. auto.
+    + intros b [[<-|[]]|Hb]; [now left|now right].
+Qed.
+
+Lemma add_rule_Inv mid r L root root' :
+  Inv L root -> add_rule mid root r = Ok root' -> exists L2, Inv L2 root' /\ Added L L2 mid (rule_bindings r).
+Proof.
+  unfold Trie.add_rule. intros HI H.
+  destruct (add_binding mid root (h_main r)) as [r1| | |] eqn:E1; try discriminate. cbn [bind] in H.
+  destruct (add_additional_Inv mid _ _ _ _ (Inv_step _ _ _ _ _ HI E1) H) as (L2 & HI2 & HA).
+  exists L2. split; auto.
+  eapply Added_trans with (bs1 := [h_main r]) (bs2 := h_adds r); [| exact HA |].
+  - exists [(mid, h_main r)]. split; [reflexivity|]. intros x [<-|[]]. cbn. auto.
+  - unfold rule_bindings. intros b [[<-|[]]|Hb]; [now left|now right].
+Qed.
+
+Lemma add_rules_Inv mid : forall rs L root root',
+  Inv L root -> add_rules mid root rs = Ok root' -> exists L2, Inv L2 root' /\ Added L L2 mid (flat_map rule_bindings rs).
+Proof.
+  induction rs as [|r rs IH]; intros L root root' HI H; cbn in H.
+  - inversion H; subst. exists L. split; auto. apply Added_refl.
+  - destruct (add_rule mid root r) as [r1| | |] eqn:E1; try discriminate. cbn [bind] in H.
+    destruct (add_rule_Inv _ _ _ _ _ HI E1) as (L1 & HI1 & HA1).
+    destruct (IH _ _ _ HI1 H) as (L2 & HI2 & HA2). exists L2. split; auto.
+    eapply Added_trans; [exact HA1|exact HA2|]. cbn [flat_map]. intros b Hb. apply in_or_app. exact Hb.
+Qed.
+
+Lemma append_handler_Inv d L root root' :
+  Inv L root -> append_handler root d = Ok root' -> exists L2, Inv L2 root' /\ Added L L2 (d_id d) (decl_bindings d).
+Proof.
+  unfold Trie.append_handler. intros HI H.
+  destruct (add_rule (d_id d) root (implicit_rule (d_id d))) as [r1|e| |] eqn:E1; try discriminate.
+  destruct (add_rule_Inv _ _ _ _ _ HI E1) as (L1 & HI1 & HA1).
+  destruct (add_rules (d_id d) r1 (d_config d)) as [r2| | |] eqn:E2; try discriminate. cbn [bind] in H.
+  destruct (add_rules_Inv _ _ _ _ _ HI1 E2) as (L2 & HI2 & HA2).
+  unfold decl_bindings.
+  assert (HA12 : Added L L2 (d_id d) (rule_bindings (implicit_rule (d_id d)) ++ flat_map rule_bindings (d_config d))).
+  { eapply Added_trans; [exact HA1|exact HA2|]. intros b Hb. apply in_or_app. exact Hb. }
+  destruct (d_annot d) as [r|].
+  - destruct (add_rule_Inv _ _ _ _ _ HI2 H) as (L3 & HI3 & HA3). exists L3. split; auto.
+    eapply Added_trans; [exact HA12|exact HA3|].
+    intros b [Hb|Hb].
+    + apply in_app_or in Hb. destruct Hb as [Hb|Hb]; apply in_or_app; [now left|right; apply in_or_app; now left].
+    + apply in_or_app. right. apply in_or_app. now right.
+  - inversion H; subst. exists L2. split; auto.
+    destruct HA12 as (A & -> & HA). exists A. split; [reflexivity|]. intros x Hx. destruct (HA x Hx) as [E Hb]. split; auto.
+    apply in_app_or in Hb. destruct Hb as [Hb|Hb]; apply in_or_app; [now left|right; apply in_or_app; now left].
+Qed.
+
+(* the registered bindings of a list of method declarations *)
+Definition decls_regs (ds : list mdecl) (x : str * brule) : Prop :=
+  exists d, In d ds /\ fst x = d_id d /\ In (snd x) (decl_bindings d).
+
+Lemma register_methods_Inv : forall ds L root root',
+  Inv L root -> register_methods root ds = Ok root' ->
+  exists L', Inv (L' ++ L) root' /\ forall x, In x L' -> decls_regs ds x.
+Proof.
+  induction ds as [|d ds IH]; intros L root root' HI H; cbn in H.
+  - inversion H; subst. exists []. split; auto. intros x [].
+  - destruct (append_handler root d) as [r1| | |] eqn:E1; try discriminate. cbn [bind] in H.
+    destruct (append_handler_Inv _ _ _ _ HI E1) as (L1 & HI1 & (A & -> & HA)).
+    destruct (IH _ _ _ HI1 H) as (B & HI2 & HB).
+    exists (B ++ A). split; [now rewrite <- app_assoc|].
+    intros x Hx. apply in_app_or in Hx. destruct Hx as [Hx|Hx].
+    + destruct (HB x Hx) as (d' & Hd & E & Hb). exists d'. split; [now right|auto].
+    + destruct (HA x Hx) as [E Hb]. exists d. split; [now left|auto].
+Qed.
+
+(* registration is all-or-nothing: a failed registerService leaves the trie it was given *)
+Lemma register_service_failed root ds root' : register_service root ds = (root', false) -> root' = root.
+Proof. unfold Trie.register_service. destruct (register_methods root ds); intros H; inversion H; reflexivity. Qed.
+
+(* no rule text can make registration panic or run dry: only a method whose own implicit
+   /Service/Method rule is refused does (appendHandler's panic("bug")) *)
+Lemma add_additional_benign mid : forall adds root, benign (add_additional mid root adds).
+Proof.
+  induction adds as [|a adds IH]; intros root; cbn; auto.
+  destruct (b_nested a); cbn; auto.
+  pose proof (add_binding_benign mid root a) as B. destruct (add_binding mid root a); cbn in *; auto.
+Qed.
+Lemma add_rule_benign mid root r : benign (add_rule mid root r).
+Proof.
+  unfold Trie.add_rule. pose proof (add_binding_benign mid root (h_main r)) as B.
+  destruct (add_binding mid root (h_main r)); cbn in *; auto. apply add_additional_benign.
+Qed.
+Lemma add_rules_benign mid : forall rs root, benign (add_rules mid root rs).
+Proof.
+  induction rs as [|r rs IH]; intros root; cbn; auto.
+  pose proof (add_rule_benign mid root r) as B. destruct (add_rule mid root r); cbn in *; auto.
+Qed.
+Theorem append_handler_total root d :
+  benign (append_handler root d) \/
+  (append_handler root d = Panic PExplicit /\ exists e, add_rule (d_id d) root (implicit_rule (d_id d)) = Err e).
+Proof.
+  unfold Trie.append_handler. pose proof (add_rule_benign (d_id d) root (implicit_rule (d_id d))) as B.
+  destruct (add_rule (d_id d) root (implicit_rule (d_id d))) as [r1|e| |]; cbn in B; try contradiction.
+  - left. pose proof (add_rules_benign (d_id d) (d_config d) r1) as B2.
+    destruct (add_rules (d_id d) r1 (d_config d)); cbn in *; auto.
+    destruct (d_annot d); [apply add_rule_benign|exact I].
+  - right. split; eauto.
 Qed.
 
 End Register.
